@@ -11,3 +11,4 @@ cd $S
 sed -i 's/^go 1.15/go 1.21/' go.mod
 go mod edit -require=github.com/anishathalye/porcupine@v1.3.0
 go build -o $S/simworker ./zsim/cmd/simworker
+go build -tags binary_log -o $S/simworker.bin ./zsim/cmd/simworker
